@@ -31,9 +31,15 @@ type pathResolver struct {
 	c      *Ctx
 	fn     *ast.FuncDecl
 	params map[types.Object]bool
-	defs   map[types.Object]ast.Expr // single-assignment locals (incl. v, ok := f())
-	rng    map[types.Object]ast.Expr // range value var -> ranged expression
-	rngKey map[types.Object]ast.Expr // range key var -> ranged expression
+	defs   map[types.Object]ast.Expr  // single-assignment locals (incl. v, ok := f())
+	rng    map[types.Object]ast.Expr  // range value var -> ranged expression
+	rngKey map[types.Object]ast.Expr  // range key var -> ranged expression
+	bind   map[types.Object]boundPath // parameters of a helper that stand for components of the caller's operands
+}
+
+type boundPath struct {
+	root types.Object
+	path string
 }
 
 func newPathResolver(c *Ctx, fd *ast.FuncDecl) *pathResolver {
@@ -99,6 +105,9 @@ func (r *pathResolver) path(e ast.Expr, depth int) (types.Object, string, bool) 
 	switch x := unparen(e).(type) {
 	case *ast.Ident:
 		o := c.objOf(x)
+		if b, ok := r.bind[o]; ok {
+			return b.root, b.path, true
+		}
 		if r.params[o] {
 			return o, "", true
 		}
@@ -177,6 +186,14 @@ func ruleEqFields(c *Ctx) {
 	}
 	for _, t := range targets {
 		seen := map[string]bool{}
+		type job struct {
+			fd   *ast.FuncDecl
+			name string
+			bind map[types.Object]boundPath
+			d    int
+		}
+		var work []job
+		listed := map[*ast.FuncDecl]bool{}
 		for _, fn := range t.fns {
 			fd := c.FuncDecl(t.pkg, fn)
 			name := t.pkg + "." + fn
@@ -184,9 +201,65 @@ func ruleEqFields(c *Ctx) {
 				c.R.Anchor(name)
 				continue
 			}
+			listed[fd] = true
+			work = append(work, job{fd, name, nil, 0})
+		}
+		done := map[string]bool{}
+		for len(work) > 0 {
+			j := work[0]
+			work = work[1:]
+			fd, name := j.fd, j.name
 			pr := newPathResolver(c, fd)
+			pr.bind = j.bind
 			for _, call := range c.calls(fd.Body) {
 				if !t.rec[c.calleeName(call)] || len(call.Args) < 2 {
+					// a helper of the same package that is handed components of both operands is followed with its parameters
+					// bound to those components (element-wise comparison loops factored out of the arms)
+					if obj, ok := c.calleeObj(call).(*types.Func); ok && obj.Pkg() != nil && short(obj.Pkg().Path()) == t.pkg && j.d < 3 {
+						hd := c.declOf(obj)
+						if hd == nil || hd.Body == nil || listed[hd] || hd == fd || hd.Type.Params == nil {
+							continue
+						}
+						var pobjs []types.Object
+						for _, fl := range hd.Type.Params.List {
+							for _, n := range fl.Names {
+								pobjs = append(pobjs, c.objOf(n))
+							}
+							if len(fl.Names) == 0 {
+								pobjs = append(pobjs, nil)
+							}
+						}
+						bind := map[types.Object]boundPath{}
+						roots := map[types.Object]bool{}
+						byType := map[string][]types.Object{}
+						key := name + ">" + hd.Name.Name
+						for i, a := range call.Args {
+							if i >= len(pobjs) || pobjs[i] == nil {
+								continue
+							}
+							if ro, pth, ok := pr.path(a, 0); ok && ro != nil {
+								bind[pobjs[i]] = boundPath{ro, pth}
+								roots[ro] = true
+								key += "|" + pth
+								byType[typeStr(c.typeOf(a))] = append(byType[typeStr(c.typeOf(a))], ro)
+							}
+						}
+						// the two operands' components: two arguments of one type that come from different operands
+						pair := false
+						for _, rs := range byType {
+							for i := range rs {
+								for k := range rs[:i] {
+									if rs[i] != rs[k] {
+										pair = true
+									}
+								}
+							}
+						}
+						if pair && len(roots) >= 2 && !done[key] {
+							done[key] = true
+							work = append(work, job{hd, t.pkg + "." + hd.Name.Name, bind, j.d + 1})
+						}
+					}
 					continue
 				}
 				ra, pa, oka := pr.path(call.Args[0], 0)
@@ -391,31 +464,29 @@ func ruleUn1(c *Ctx) {
 		n++
 		desc := "store " + src(as.Lhs[0]) + " = " + src(as.Rhs[0])
 		tObj := c.objOf(as.Rhs[0])
-		// the variable being bound: <v>.TyVar().Name
-		vRoot := ""
-		var vRootE ast.Expr = ast.NewIdent("?")
-		if se, ok := ix.Index.(*ast.SelectorExpr); ok && se.Sel.Name == "Name" {
-			if ce, ok := se.X.(*ast.CallExpr); ok {
-				if s2, ok := ce.Fun.(*ast.SelectorExpr); ok {
-					vRoot = src(s2.X)
-					vRootE = s2.X
-				}
-			}
+		// the variable being bound: the index is <V>.Name, where V denotes a type variable (x.TyVar(), or a local / parameter
+		// bound to it); compared as terms with single-assignment locals resolved, so `tv := x.TyVar(); .. m[tv.Name]` and
+		// `m[x.TyVar().Name]` are the same thing
+		vRoot := "?"
+		var keyX ast.Expr
+		if se, ok := unparen(ix.Index).(*ast.SelectorExpr); ok && se.Sel.Name == "Name" {
+			keyX = se.X
+			vRoot = src(se.X)
 		}
-		// control dependence (not syntactic nesting): freeFrom(T, v.TyVar()) holds whenever the store is reached
+		// control dependence (not syntactic nesting): freeFrom(T, V) holds whenever the store is reached
 		occurs := false
 		tcx := c.fnTerms(fd)
-		tcx.defs = map[types.Object]ast.Expr{} // compare variables, not their definitions
-		known := map[string]bool{}
-		for _, pc := range g.condsAt(as) {
-			for _, ct := range conjuncts(tcx.condTerm(pc)) {
-				known[ct] = true
-			}
-		}
-		for ct := range known {
-			op, args := splitTerm(ct)
-			if op == "types.freeFrom" && len(args) == 2 && tObj != nil && args[0] == tcx.tr(as.Rhs[0]) && strings.HasPrefix(args[1], "m:types.Type.TyVar("+tcx.tr(vRootE)+")") {
-				occurs = true
+		tcxV := c.fnTerms(fd) // with definitions resolved
+		tcx.defs = map[types.Object]ast.Expr{}
+		if keyX != nil {
+			wantT, wantV := tcxV.tr(as.Rhs[0]), tcxV.tr(keyX)
+			for _, pc := range g.condsAt(as) {
+				for _, ct := range conjuncts(tcxV.condTerm(pc)) {
+					op, args := splitTerm(ct)
+					if op == "types.freeFrom" && len(args) == 2 && tObj != nil && args[0] == wantT && args[1] == wantV {
+						occurs = true
+					}
+				}
 			}
 		}
 		substituted := false
@@ -430,7 +501,7 @@ func ruleUn1(c *Ctx) {
 		case !substituted:
 			c.R.Bad("types.unify", desc, as.Pos(), "the stored / occurs-checked type is not applySubst(.., m): occurrences reachable through already-bound variables are missed")
 		default:
-			c.R.OK("types.unify", desc, as.Pos(), "under freeFrom(%s, %s.TyVar()) with %s = applySubst(..)", src(as.Rhs[0]), vRoot, src(as.Rhs[0]))
+			c.R.OK("types.unify", desc, as.Pos(), "under freeFrom(%s, %s) with %s = applySubst(..)", src(as.Rhs[0]), vRoot, src(as.Rhs[0]))
 		}
 		// UN-2: when the store is reached, "the variable was unbound or its binding Equals T" is known:
 		// not(and(ok, not(Equals(k, T)))) from an early return, or its De Morgan forms
